@@ -236,7 +236,7 @@ def abs_line(s, it):
     if body == ".":
         return {"ind": n, "b": "dot", "id": []}
     parts = body.split(" ")
-    if len(parts) <= 400 and all(parts) and not any(ch.isspace() for p in parts for ch in p):
+    if len(parts) <= 2000 and all(parts) and not any(ch.isspace() for p in parts for ch in p):
         return {"ind": n, "b": "txt", "id": [it(p) for p in parts]}
     return {"ind": n, "b": "txt", "id": [it(body)]}
 
@@ -1379,7 +1379,7 @@ def run_traces(ctx, quick):
     for n in range(ndoc):
         if n < len(suite):
             hdr, ops, start, form, dumpform, reqs = suite[n]
-        elif rng.random() < (0.06 if quick else 0.1):
+        elif rng.random() < 0.06:
             hdr, ops, start, form, dumpform = stressed_doc(rng, not quick)
             reqs = random_edit_requests(rng)
             nstress += 1
